@@ -107,13 +107,24 @@ def run(tier, seed):
         res.violation("model evaluation failed (coqc)", dict(kind="coqc-error", log=e, no_failing_input_found=True))
     res.traces_validated = len(cases) - len(failing)
     corr = [meta[i] for i in failing[:4]]
+    # ---- whole passes of real TrajectoryCum runs replayed through Model/Traj.step_cum
+    import ptraj
+    tc, tmeta = ptraj.collect(res, rng, 7 if tier == "quick" else 150, 40 if tier == "quick" else 1500, kind="cum")
+    f4, e4 = run_case_check("C09traj", ptraj.PRELUDE_T, "caseC", "chkC", tc, per_file=8, timeout=1500)
+    for e in e4:
+        res.violation("model evaluation failed (coqc)", dict(kind="coqc-error", log=e, no_failing_input_found=True))
+    res.traces_validated += len(tc) - len(f4)
+    if f4 and not bad and not corr:
+        res.violation("loop body of a TrajectoryCum run differs from Model/Traj.step_cum (Run/RTraj.chkC): C09_full_step_accepted_hop no longer covers the code",
+                      dict(kind="correspondence", correspondence="Run/RTraj.chkC: Model/Traj.step_cum vs the loop body of TrajectoryCum.simulate",
+                           failing_inputs=[tmeta[i] for i in f4[:4]], no_failing_input_found=True))
     if bad:
         res.violation("implementation violates: " + bad[0]["failed"], dict(kind="oracle", failing_inputs=bad[:4], correspondence_failures=corr))
     elif corr:
         res.violation("implementation differs from Model/Cumulative.v (theorems no longer cover the code)",
                       dict(kind="correspondence", correspondence="Run/R09.chk09: Model/Cumulative.v vs TrajectoryCum.hopper", failing_inputs=corr, no_failing_input_found=True))
     return finish(res, thm,
-                  rule="sequences of 5..60 rate vectors (zero, 1e-12, moderate, totals > 1), 2..8 states, zeta_list of length 0/1/2/4/40 then the generator stream (pre-drawn from a twin generator), driven through TrajectoryCum.hopper; "
+                  rule="sequences of 5..60 rate vectors (zero, 1e-12, moderate, totals > 1), 2..8 states, zeta_list of length 0/1/2/4/40 then the generator stream (pre-drawn from a twin generator), driven through TrajectoryCum.hopper; whole loop-body passes of real TrajectoryCum runs (7 models) replayed through Model/Traj.step_cum; "
                        "non-trivial = sequence with at least one attempt",
                   assumptions=["numpy Generator.choice(p=) consumes one uniform and is searchsorted(cumsum(p)/sum, u, 'right') (checked per attempt by the oracle)",
                                "np.longdouble accumulation vs binary64 model: 2^-40 tolerance; |acc - zeta| < 2^-40 is knife-edge"])
